@@ -30,8 +30,9 @@ NInit(c, k) == /\ cfgof = c /\ kindof = k /\ ready = FALSE
 Rejected == {m \in Mods : created[m] = "rejected"}
 AllCreated == \A m \in Mods : created[m] # "no"
 
+AllowedM(m) == IF kindof[m] = "noclass" THEN {"rejected"} ELSE Allowed(CfgOf[m])
 Create(m, out) ==
-    /\ node = "building" /\ created[m] = "no" /\ out \in Allowed(CfgOf[m])
+    /\ node = "building" /\ created[m] = "no" /\ out \in AllowedM(m)
     /\ created' = [created EXCEPT ![m] = out]
     /\ registered' = IF out = "accepted" THEN registered \cup {m} ELSE registered
     /\ pending' = [pending EXCEPT ![m] = IF out = "accepted" THEN WriteSet(CfgOf[m]) ELSE {}]
@@ -79,7 +80,7 @@ NoHalfModule == registered \cap Rejected = {}
 RefusedWhole == node = "refused" => /\ reported = Rejected /\ Rejected # {}
                                     /\ started = {} /\ polled = {}
                                     /\ \A m \in Mods : created[m] = "accepted" => pending[m] = WriteSet(CfgOf[m])
-NeverIgnored == \A m \in Mods : (Failing(CfgOf[m]) # {} \/ Missing(CfgOf[m]) # {}) /\ created[m] # "no"
+NeverIgnored == \A m \in Mods : (Failing(CfgOf[m]) # {} \/ Missing(CfgOf[m]) # {} \/ kindof[m] = "noclass") /\ created[m] # "no"
                                    => created[m] = "rejected" /\ node # "running"
 DecideFirst == started # {} => AllCreated /\ Rejected = {}
 WritesBeforePoll == \A m \in polled : pending[m] = {}
